@@ -391,16 +391,85 @@ func (c c19) Generate(e *Env) ([]*Case, error) {
 		// ... and one cold -debugdir build (full -a rebuild) so that cold and warm trees are compared.
 		add(c19Params{Cmd: "build", State: "cold", DebugDir: "owned-stale"})
 	}
+	// 4. -debugdir after a build without it: the caches hold compiled packages whose
+	// debug artifacts were never stored (outside the gate: two full rebuilds).
+	add(c19Params{Cmd: "dd-history", State: "cold", Source: "."})
+	if thorough {
+		add(c19Params{Cmd: "dd-history", State: "cold", Source: "leaf"})
+		add(c19Params{Cmd: "dd-history", State: "cold", Source: "top"})
+	}
 	e.SetExtra("exhaustive", false)
 	e.SetExtra("exhaustive_note", "thorough: every event index of the warm build (with and without a debugdir target), reverse and map runs x {ENOSPC, EACCES, EIO, toolfail}; every debugdir target state; cold-build and run indexes sampled")
 	e.SetExtra("fault_kinds_expected", []string{"fail"})
 	return cases, nil
 }
 
+// runHistory: `garble -debugdir build`, edit main, `garble build` (no -debugdir),
+// `garble -debugdir build` again on the same caches. The debug dir must end up
+// holding the complete trees of the final source, as a cold build gives.
+func (c c19) runHistory(e *Env, cs *Case, p c19Params) (*Outcome, error) {
+	tmpl, err := e.Template(cfgDebugDir)
+	if err != nil {
+		return nil, err
+	}
+	w, err := world.New(e.Bin, "c19h")
+	if err != nil {
+		return nil, err
+	}
+	defer w.Close()
+	if err := w.Load(tmpl); err != nil {
+		return nil, err
+	}
+	src, err := PrepareSource(w, "p1", "p1", nil)
+	if err != nil {
+		return nil, err
+	}
+	o := &Outcome{Faults: map[string]int{}, Probes: map[string]int{}, Traces: map[string][]engine.Step{}}
+	o.NonTrivial = true
+	o.Fingerprint = string(cs.Params)
+	out := filepath.Join(w.Out, "bin")
+	ed := Edit{Pkg: p.Source, Kind: "body", N: 8}
+	steps := []struct {
+		cfg  world.Config
+		edit bool
+	}{{cfgDebugDir, false}, {cfgDefault, true}, {cfgDebugDir, false}}
+	for i, st := range steps {
+		if st.edit {
+			if err := ApplyEdit(src, ed); err != nil {
+				return nil, err
+			}
+		}
+		_, se, code := w.RunPlain(src, st.cfg, "build", "-o", out, ".")
+		o.SimRuns++
+		if code != 0 {
+			o.Violation = &Violation{Class: "command-failed", Key: "command-failed/dd-history/" + p.Source, Detail: fmt.Sprintf("step %d of the -debugdir history failed: %s", i, shortErr(se))}
+			return o, nil
+		}
+	}
+	ref, err := e.Reference(RefSpec{Prog: "p1", Edits: []Edit{ed}, Cfg: cfgDebugDir, DebugDir: true})
+	if err != nil {
+		return nil, err
+	}
+	sum, n := DebugDirSum(filepath.Join(w.Out, "debugdir"))
+	o.Sample = map[string]any{"params": p, "debugdir_files": n, "reference_files": ref.DebugN}
+	o.Probes["debugdir-tree-compared"]++
+	if sum != ref.DebugSum {
+		o.Violation = &Violation{Class: "debugdir-incomplete", Key: "debugdir-incomplete/dd-history/" + p.Source,
+			Detail: fmt.Sprintf("history `-debugdir build; edit %s; build; -debugdir build`: the debug dir holds %d files and differs from a cold -debugdir build of the same source (%d files)", p.Source, n, ref.DebugN)}
+	}
+	if lo := leftovers(w.Tmp); len(lo) > 0 && o.Violation == nil {
+		o.Violation = &Violation{Class: "tmpdir-leftover", Key: "tmpdir-leftover/dd-history", Detail: fmt.Sprintf("left in TMPDIR: %v", lo)}
+	}
+	return o, nil
+}
+
 func (c c19) Run(e *Env, cs *Case) (*Outcome, error) {
 	var p c19Params
 	if err := json.Unmarshal(cs.Params, &p); err != nil {
 		return nil, err
+	}
+	if p.Cmd == "dd-history" {
+		return c.runHistory(e, cs, p)
 	}
 	w, cfg, err := c.start(e, p)
 	if err != nil {
